@@ -1003,16 +1003,16 @@ class C13(core.Check):
         return out
 
     def gen_cases(self, rng: random.Random, tier: str) -> List[dict]:
-        n = 24 if tier == "quick" else 300
+        n = 16 if tier == "quick" else 308  # round 6b: 8 of the quick runs moved to thorough
         cases = [self._gen_valid(rng, tier) for _ in range(n)]
         cases += [self._gen_symfree(rng) for _ in range(3 if tier == "quick" else 20)]
-        cases += [self._gen_overlap(rng, tier) for _ in range(4 if tier == "quick" else 30)]
+        cases += [self._gen_overlap(rng, tier) for _ in range(3 if tier == "quick" else 31)]
         cases += [self._gen_degenerate(rng) for _ in range(3 if tier == "quick" else 20)]
-        cases += [self._gen_deglink(rng) for _ in range(5 if tier == "quick" else 24)]
-        cases += [self._gen_radial_small(rng) for _ in range(4 if tier == "quick" else 32)]
-        cases += [self._gen_reuse(rng, tier) for _ in range(5 if tier == "quick" else 40)]
+        cases += [self._gen_deglink(rng) for _ in range(4 if tier == "quick" else 25)]
+        cases += [self._gen_radial_small(rng) for _ in range(3 if tier == "quick" else 33)]
+        cases += [self._gen_reuse(rng, tier) for _ in range(3 if tier == "quick" else 42)]
         cases += [self._gen_variants(rng) for _ in range(3 if tier == "quick" else 24)]
-        cases += [self._gen_micro(rng) for _ in range(4 if tier == "quick" else 32)]
+        cases += [self._gen_micro(rng) for _ in range(3 if tier == "quick" else 33)]
         cases += [self._gen_rejected(rng, tier) for _ in range(3 if tier == "quick" else 24)]
         for _ in range(1 if tier == "quick" else 5):
             cases += self._gen_boundary(rng, tier)
@@ -1330,7 +1330,7 @@ class C13(core.Check):
     def _close(a: float, b: Fraction, rel: float = 1e-9) -> bool:
         return abs(Fraction(a) - b) <= rel * max(abs(b), Fraction(1, 10**9))
 
-    def _compare_driver_states(self, states: List[Any], ans: str, case_tol: float) -> Optional[str]:
+    def _compare_driver_states(self, states: List[Any], ans: str, case_tol: float, q_first: Optional[float] = None) -> Optional[str]:
         parts = ans.split("|")
         if len(parts) < len(states):
             return f"{len(parts)} model states for {len(states)} of the implementation"
@@ -1347,13 +1347,20 @@ class C13(core.Check):
                 if not self._close(st[k], Fraction(f[k])):
                     return f"{what}: {k}_improvement {st[k]!r}, model {f[k]}"
             if f["conv"] != st["conv"]:
+                # the tolerance test `last_improvement / q0 < tolerance` within rounding of the threshold: floats and
+                # exact rationals may legitimately differ (e.g. 8.163 -> 7.3467 with tolerance 0.1)
+                if q_first and st["n"] >= 2 and {f["conv"], st["conv"]} == {"yes", "no"}:
+                    ratio = st["last"] / q_first
+                    if abs(ratio - case_tol) <= 1e-9 * max(1.0, abs(case_tol)):
+                        continue
                 return f"{what}: converged = {st['conv']}, model {f['conv']}"
         return None
 
     def _compare_driver(self, case: dict, impl: Any, model: List[str]) -> Optional[str]:
         if "bad-op" in model:
             return "model rejects the request (bad-op)"
-        why = self._compare_driver_states(impl["driver_states"], model[0], case["tolerance"])
+        q_first = next((q for o, q in case["ops"] if o == "b"), None)
+        why = self._compare_driver_states(impl["driver_states"], model[0], case["tolerance"], q_first)
         if why:
             return "IterationDriver " + why
         r = impl["reporter_final"]
@@ -1380,8 +1387,11 @@ class C13(core.Check):
         states = [dict(x.split("=") for x in p.split(",")) for p in parts[:-1]]
         # after __init__ and after every end_iteration but the last the loop went on, after the last it stopped
         ends = [states[0]] + states[2::2]
+        tol_f = 0.1 if case.get("use_defaults") else case["tolerance"]
         for k, st in enumerate(ends):
             if (st["conv"] == "yes") != (k == len(ends) - 1):
+                if k >= 2 and c["hist"][0][0] and abs(float(Fraction(st["last"])) / c["hist"][0][0] - tol_f) <= 1e-9 * max(1.0, abs(tol_f)):
+                    continue  # within rounding of the tolerance threshold
                 return f"the loop ran {len(ends) - 1} iterations; the driver model says converged={st['conv']} after {k}"
         msum = parts[-1][4:]
         if c.get("summary_exc") or msum in ("IndexError", "ZeroDivisionError"):
